@@ -116,7 +116,7 @@ class E2E(Harness):
     def collect(self, ctx, stream, parse_bad, yield_unrec, n):
         """the items the library delivers for the stream (overridden by harnesses that observe them through another entry point)"""
         p = self.job["params"]
-        if p.get("via") == "direct":
+        if p.get("via") in ("direct", "direct-twice"):
             # the public parse_ccsds_packet called directly on each framed packet (no generator): every packet parsed or its error raised
             return self.collect_direct(ctx, stream)
         kw = {"root_container_name": templates.root_of(p["template"])} if p.get("root_mode") == "gen" else {}
@@ -141,6 +141,13 @@ class E2E(Harness):
         for n in p["lens"]:
             raw = lib.RawPacketData(bv.SymBytes(stream.items[o:o + n]))
             o += n
+            if p.get("via") == "direct-twice":
+                # the SAME framed packet object is wrapped and parsed a first time (result discarded: "try one definition, fall back to another");
+                # the second parse must start from a fresh cursor
+                try:
+                    self.defn2.parse_ccsds_packet(lib.packets.CCSDSPacket(raw_data=raw), **kw)
+                except Exception:   # noqa: BLE001,S110 - outcome of the discarded first parse
+                    pass
             try:
                 yields.append(self.defn.parse_ccsds_packet(lib.packets.CCSDSPacket(raw_data=raw), **kw))
             except Exception as e:   # noqa: BLE001 - library outcome
@@ -161,7 +168,7 @@ class E2E(Harness):
         flags = ctx.choose("flags", len(p.get("flagsets", [0, 1, 2, 3])))
         flags = p.get("flagsets", [0, 1, 2, 3])[flags]
         parse_bad, yield_unrec = bool(flags & 1), bool(flags & 2)
-        if p.get("via") == "direct":
+        if p.get("via") in ("direct", "direct-twice"):
             parse_bad, yield_unrec = True, True        # a direct call returns every parsed packet and raises for an unrecognized one
         stream, pk = self.build_stream(lens)
         yields, end = self.collect(ctx, stream, parse_bad, yield_unrec, len(lens))
@@ -267,7 +274,7 @@ class E2E(Harness):
             obl.append(("generator ends normally", end == "stop"))
         if spec_end == "exc":
             obl.append(("nothing yielded after the failing packet", k == len(yields)))
-        if warn_exact and spec_end == "stop" and p.get("via") != "direct":        # (the length warning is the generator's)
+        if warn_exact and spec_end == "stop" and p.get("via") not in ("direct", "direct-twice"):        # (the length warning is the generator's)
             obl.append(("one length warning per mismatched packet", n_warn == exp_warn))
         for y, i in zip(yields, idx):
             if isinstance(y, Exception):
@@ -364,6 +371,8 @@ def make(job):
     h = (Twin if job["h"] == "twin" else E2E)(job)
     h.lib = lib
     h.defn = bv.symbolize_definition(load_defn(lib.definitions, xml, p))
+    if p.get("via") == "direct-twice":
+        h.defn2 = bv.symbolize_definition(load_defn(lib.definitions, xml, p))
     h.spec = specxtce.Spec(xml, root=templates.root_of(p["template"]))
     return h
 
@@ -427,11 +436,17 @@ def run_real(xml, stream, parse_bad, yield_unrec, limit, runner=None, p=None):
         try:
             if runner is not None:
                 ys, end = runner(xml, stream)
-            elif p.get("via") == "direct":
+            elif p.get("via") in ("direct", "direct-twice"):
                 from space_packet_parser import packets as _P
                 for raw in pk:
+                    rawobj = _P.RawPacketData(raw)
+                    if p.get("via") == "direct-twice":
+                        try:
+                            load_defn(definitions, xml, p).parse_ccsds_packet(_P.CCSDSPacket(raw_data=rawobj), **kw)
+                        except Exception:   # noqa: BLE001,S110
+                            pass
                     try:
-                        ys.append(d.parse_ccsds_packet(_P.CCSDSPacket(raw_data=_P.RawPacketData(raw)), **kw))
+                        ys.append(d.parse_ccsds_packet(_P.CCSDSPacket(raw_data=rawobj), **kw))
                     except Exception as e:   # noqa: BLE001
                         if not hasattr(e, "partial_data"):
                             raise
@@ -497,7 +512,7 @@ def judge(req, got):
     if got.get("definition_changed") and req.get("check_definition_unchanged"):
         return "reproduced", f"parsing the stream {inp['stream']['hex']} (template {inp['template']}) modified the definition (its XML or a public attribute)"
     via = (req.get("params") or {})
-    via = (" (parse_ccsds_packet called directly)" if via.get("via") == "direct" else "") + (" (root container named in the generator call)" if via.get("root_mode") == "gen" else "") + \
+    via = (" (parse_ccsds_packet called directly)" if via.get("via") == "direct" else " (parse_ccsds_packet called directly, second parse of the same framed packet object)" if via.get("via") == "direct-twice" else "") + (" (root container named in the generator call)" if via.get("root_mode") == "gen" else "") + \
         (f" (file source, buffer_read_size_bytes={via.get('read')})" if via.get("source") == "file" else "") + (f" (skip_header_bytes={via.get('skip')})" if via.get("skip") else "")
     head = f"template {inp['template']}{via} stream {inp['stream']['hex']} parse_bad_pkts={inp['parse_bad']} yield_unrecognized={inp['yield_unrec']}"
     gy = list(got["yields"])
